@@ -94,15 +94,15 @@ def build(rnd, tier, flags):
             if st.label:
                 lab_used = True
         else:
-            ind = " " * r.n(0, 6)
+            ind = " " * r.n(0, 6) if not r.chance(15) else r.pick(["\t", " \t", "\t\t"])     # tabs are blanks to the reader
             pre = (st.label + " " if st.label else "") + ((st.cname + ": ") if st.cname else "")
             if chunks:
-                parts = [ind + "!$ " + pre + chunks[0] + " &"]
+                parts = [ind + r.pick(["!$ ", "!$ ", "!$ ", "!$\t"]) + pre + chunks[0] + " &"]
                 for k, ch in enumerate(chunks[1:]):
                     last = k == len(chunks) - 2
                     parts.append(" " * r.n(0, 6) + r.pick(["!$ & ", "!$& ", "!$ ", "!$  &"]) + ch + ("" if last else " &"))
             else:
-                parts = [ind + "!$ " + line]
+                parts = [ind + r.pick(["!$ ", "!$ ", "!$ ", "!$\t"]) + line]
             comment_pool = ["! plain comment", "", "   ! indented comment"]
         for k, p in enumerate(parts):
             if k and r.chance(25):
@@ -206,11 +206,12 @@ def evaluate(case):
     if o_disk.kind != "tree":
         return Result(False, "disabled-kept:reject:%s" % o_disk.kind, nontrivial, labels, {"error": o_disk.text})
     comm = [str(c).strip() for c in walk(o_disk.tree, F03.Comment) if str(c).strip()]
-    want = [h.strip() for h in case["hidden"]]
-    got_hidden = list(comm)
+    ws = lambda t: " ".join(t.split())        # the reader expands tabs: compare modulo runs of white space  # noqa: E731
+    want = [ws(h) for h in case["hidden"]]
+    got_hidden = [ws(c) for c in comm]
     for pc in case.get("plain_comments", []):
-        if pc in got_hidden:
-            got_hidden.remove(pc)
+        if ws(pc) in got_hidden:
+            got_hidden.remove(ws(pc))
     if got_hidden != want:
         return Result(False, "disabled-kept:comments-differ", nontrivial, labels,
                       {"expected": want[:6], "got": got_hidden[:6]})
